@@ -24,8 +24,10 @@
      * GLOBALCOUNT: how many rankers make a list is decided by the in-memory BPCOUNT (system.GetBpCount()) at the
        moment the list is COMPUTED: at connect time for a cached snapshot (= the value stored by the parent block), at
        load time when the snapshot is recomputed from the state DB (= the value of the current best block, or - during
-       the roll-forward of a reorganisation - of the abandoned branch's tip).  CountFix = TRUE replaces this by the
-       repaired rule "the count is read from the state of the snapshot block itself".
+       the roll-forward of a reorganisation - of the abandoned branch's tip).  With a BPCOUNT that changes this makes
+       the list in force depend on the node's history (finding BPS-F1, docs/notes/BpSnapshots.md; reproduced on the
+       real code).  CountFix = TRUE replaces it by the repaired rule "the count is read from the state of the
+       snapshot block itself".
 *)
 EXTENDS Integers, Sequences, FiniteSets, TLC, Util
 
@@ -191,8 +193,6 @@ Next ==
 Spec == Init /\ [][Next]_vars
 
 \* ---------------------------------------------------------------- properties
-Lists == UNION {[1..k -> UNION {Range(Rankings[i]) : i \in DOMAIN Rankings} \cup Range(Genesis)] : k \in 0..8}
-
 TypeOK ==
   /\ ContentSet \subseteq AllContents
   /\ chain \in Seq(Contents) /\ Len(chain) <= MaxH
